@@ -111,6 +111,15 @@ func ruleST1(c *Ctx) {
 	}
 	// (c) chooser internals
 	fn := c.Name(ch)
+	// loop form: `for _, cand := range []string{Join(dir, A), Join(dir, B)} { if Stat(cand) == nil { return cand } }; return
+	// Join(dir, D)`: the literal's order is the preference order
+	if order, def, ok := c.chooserLoopForm(ch); ok {
+		c.ok(fn, "returns-join", c.FnPos(ch), "every candidate and the default are Join(dir, <file name>)")
+		c.check(len(order) == 2 && order[0] == "plans.jsonl" && order[1] == "events.jsonl" && def == "plans.jsonl", fn, "preference-order", c.FnPos(ch),
+			"first existing of [plans.jsonl, events.jsonl], else plans.jsonl",
+			fmt.Sprintf("the chooser's preference order changed (candidates %v, default %q): a store holding both (or only one) of the files can be read from one and written to the other", order, def))
+		return
+	}
 	var plansRet, oldRet []*ssa.Return
 	for _, r := range returnsOf(ch) {
 		if len(r.Results) != 1 {
@@ -1298,6 +1307,12 @@ func (c *Ctx) replayFactLabel(bf branchFact) string {
 		}
 		return "?"
 	}
+	// membership of a payload/task field in a constant set of states is a comparison of that field with constants
+	if key, _, isSet := constSetLookup(c.Prog, a); isSet {
+		if b, n, ok := fieldLoad(resolveEnv(key, a.Env)); ok {
+			return namedTypeName(b.Type()) + "." + n + "==const"
+		}
+	}
 	switch a.Kind {
 	case "bool":
 		if ex, ok := strip(a.X).(*ssa.Extract); ok {
@@ -1543,4 +1558,98 @@ func rangeFuncIterator(yield *ssa.Function) *ssa.Call {
 		}
 	})
 	return found
+}
+
+// chooserLoopForm recognises the chooser written as a loop over an ordered list of candidates; returns the file names in
+// list order and the default's file name.
+func (c *Ctx) chooserLoopForm(ch *ssa.Function) (order []string, def string, ok bool) {
+	joinName := func(v ssa.Value) (string, bool) {
+		cl, _ := callOf(resolve(v))
+		if cl == nil || calleeFullName(&cl.Call) != "path/filepath.Join" {
+			return "", false
+		}
+		el := variadicElems(cl.Call.Args)
+		if len(el) != 2 {
+			return "", false
+		}
+		if _, isPrm := resolve(el[0]).(*ssa.Parameter); !isPrm {
+			return "", false
+		}
+		s, isC := constString(el[1])
+		return s, isC
+	}
+	var candRet, defRet *ssa.Return
+	for _, r := range returnsOf(ch) {
+		if len(r.Results) != 1 {
+			return nil, "", false
+		}
+		v := resolve(r.Results[0])
+		if _, isJoin := joinName(v); isJoin {
+			if defRet != nil {
+				return nil, "", false
+			}
+			defRet = r
+			continue
+		}
+		if candRet != nil {
+			return nil, "", false
+		}
+		candRet = r
+	}
+	if candRet == nil || defRet == nil {
+		return nil, "", false
+	}
+	def, _ = joinName(defRet.Results[0])
+	// the returned candidate: element i of a slice literal, i the index of an upward slice loop
+	ld, isLoad := strip(candRet.Results[0]).(*ssa.UnOp)
+	if !isLoad {
+		return nil, "", false
+	}
+	ia, isIA := ld.X.(*ssa.IndexAddr)
+	if !isIA {
+		return nil, "", false
+	}
+	elems := variadicElems([]ssa.Value{ia.X})
+	if len(elems) < 2 || (len(elems) == 1 && elems[0] == ia.X) {
+		return nil, "", false
+	}
+	for _, e := range elems {
+		n, isJoin := joinName(e)
+		if !isJoin {
+			return nil, "", false
+		}
+		order = append(order, n)
+	}
+	// upward loop: index = phi(-1, index+1) + 1
+	up := false
+	if b, isB := ia.Index.(*ssa.BinOp); isB && b.Op == token.ADD {
+		if ph, isPhi := b.X.(*ssa.Phi); isPhi {
+			if k, isK := constInt(b.Y); isK && k == 1 {
+				for _, e := range ph.Edges {
+					if kk, isKK := constInt(e); isKK && kk == -1 {
+						up = true
+					}
+				}
+			}
+		}
+	}
+	if !up {
+		return nil, "", false
+	}
+	// the candidate is returned only behind Stat(candidate) == nil
+	statOK := edgesWhere(ch, func(a Atom, holds bool) bool {
+		if a.Kind != "nil" || !holds {
+			return false
+		}
+		cl, _ := callOf(a.X)
+		return cl != nil && calleeFullName(&cl.Call) == "os.Stat" && len(cl.Call.Args) == 1 && strip(cl.Call.Args[0]) == ssa.Value(ld)
+	})
+	if len(statOK) == 0 || !mustPassEdges(ch, candRet.Block(), statOK) {
+		return nil, "", false
+	}
+	// the default is returned only after the loop has run out (not from inside it)
+	if inCycle(defRet.Block()) {
+		return nil, "", false
+	}
+	return order, def, true
 }
